@@ -415,9 +415,14 @@ def run_case(idx, rng, tier, rep):
 def bad_list(rng, base, fresh, tagf, cfg, response=False):
     """A header list that is valid for a prefix of fresh indexable fields and then invalid."""
     why = rng.choice(['pseudo-after-regular', 'duplicate-pseudo', 'unknown-pseudo', 'te-not-trailers', 'missing-pseudo',
-                      'authority-host-mismatch', 'empty-path', 'connection-specific'])
+                      'authority-host-mismatch', 'empty-path', 'connection-specific', 'value-not-a-string'])
     hs = list(base)
-    if why == 'pseudo-after-regular':
+    if why == 'value-not-a-string' and not cfg['normalize_outbound_headers']:
+        why = 'unknown-pseudo'      # without normalisation nothing looks at the value before the encoder does: not generated
+    if why == 'value-not-a-string':
+        # a caller's slip rather than a protocol violation: the call fails with whatever exception, and must leave no trace either
+        hs = hs + fresh + [tagf, (b'x-broken', None)]
+    elif why == 'pseudo-after-regular':
         hs = hs + fresh + [tagf] + [hs[0]]
         hs.pop(0)
     elif why == 'duplicate-pseudo':
